@@ -4,19 +4,21 @@ EXTENDS ConnCtrl, Json
 \* i1,i2: two peers behind IP A; i3: a peer at IP B; i4: the peer of i3 reconnecting (same id, same IP, new port);
 \* i5: an attempt from IP C presenting the peer id of i1; o1,o2: dials to two peers; o3: a second dial to o1's address;
 \* o4: a dial to the listen address announced by the peer of i1.
-ConnsAll == {"i1", "i2", "i3", "i4", "i5", "o1", "o2", "o3", "o4"}
+\* i6: the peer of i1 reconnecting from the SAME source ip:port (the old socket is dead but may still be recorded).
+ConnsAll == {"i1", "i2", "i3", "i4", "i5", "i6", "o1", "o2", "o3", "o4"}
+ConnsQ3 == {"i1", "i6", "i2", "i3"}                  \* reconnect from a recorded remote address, then fill to the limit
 ConnsQ == {"i1", "i2", "i3", "o1", "o2"}            \* the three limits under concurrency
 ConnsQ2 == {"i1", "i5", "o1", "o3", "o4"}           \* address / connecting-list / peer-id refusals
 ConnsT == {"i1", "i2", "i3", "i4", "o1", "o2", "o3"}
 ConnsT2 == {"i1", "i2", "i5", "o1", "o3", "o4"}
 
 DirM == [c \in ConnsAll |-> IF c \in {"o1", "o2", "o3", "o4"} THEN "out" ELSE "in"]
-IpM == "i1" :> "A" @@ "i2" :> "A" @@ "i3" :> "B" @@ "i4" :> "B" @@ "i5" :> "C" @@ "o1" :> "D" @@ "o2" :> "E" @@ "o3" :> "D" @@ "o4" :> "A"
-AddrM == "i1" :> "A:1" @@ "i2" :> "A:2" @@ "i3" :> "B:1" @@ "i4" :> "B:2" @@ "i5" :> "C:1"
+IpM == "i6" :> "A" @@ "i1" :> "A" @@ "i2" :> "A" @@ "i3" :> "B" @@ "i4" :> "B" @@ "i5" :> "C" @@ "o1" :> "D" @@ "o2" :> "E" @@ "o3" :> "D" @@ "o4" :> "A"
+AddrM == "i6" :> "A:1" @@ "i1" :> "A:1" @@ "i2" :> "A:2" @@ "i3" :> "B:1" @@ "i4" :> "B:2" @@ "i5" :> "C:1"
          @@ "o1" :> "D:9" @@ "o2" :> "E:9" @@ "o3" :> "D:9" @@ "o4" :> "A:9"
-ListenM == "i1" :> "A:9" @@ "i2" :> "A:8" @@ "i3" :> "B:9" @@ "i4" :> "B:9" @@ "i5" :> "C:9"
+ListenM == "i6" :> "A:9" @@ "i1" :> "A:9" @@ "i2" :> "A:8" @@ "i3" :> "B:9" @@ "i4" :> "B:9" @@ "i5" :> "C:9"
            @@ "o1" :> "D:9" @@ "o2" :> "E:9" @@ "o3" :> "D:9" @@ "o4" :> "A:9"
-KidM == "i1" :> "k1" @@ "i2" :> "k2" @@ "i3" :> "k3" @@ "i4" :> "k3" @@ "i5" :> "k1"
+KidM == "i6" :> "k1" @@ "i1" :> "k1" @@ "i2" :> "k2" @@ "i3" :> "k3" @@ "i4" :> "k3" @@ "i5" :> "k1"
         @@ "o1" :> "k4" @@ "o2" :> "k5" @@ "o3" :> "k4" @@ "o4" :> "k1"
 IpOfAddrM == "A:1" :> "A" @@ "A:2" :> "A" @@ "A:8" :> "A" @@ "A:9" :> "A" @@ "B:1" :> "B" @@ "B:2" :> "B" @@ "B:9" :> "B"
              @@ "C:1" :> "C" @@ "C:9" :> "C" @@ "D:9" :> "D" @@ "E:9" :> "E"
